@@ -262,12 +262,22 @@ func runBinary(bin, line string) result {
 // ---------------------------------------------------------------------------------------------
 // stream A
 
-func loadBuiltins() []builtin {
+func loadBuiltins() (bs []builtin) {
+	// a tree whose parser or VM is broken must still get its crash search: fall back to a fixed list
+	defer func() {
+		if r := recover(); r != nil || len(bs) == 0 {
+			bs = nil
+			for _, s := range strings.Fields("length/0 keys/0 map/1 select/1 path/1 getpath/1 setpath/2 delpaths/1 to_entries/0 from_entries/0 mktime/0 gmtime/0 strftime/1 strptime/1 todate/0 test/2 sub/3 gsub/2 split/2 implode/0 explode/0 tojson/0 fromjson/0 limit/2 range/3 first/1 until/2 flatten/1 join/1 ltrimstr/1 add/0 sort_by/1 group_by/1 indices/1 splits/1 ascii/0 tostring/0 tonumber/0 error/1 input/0") {
+				name, ar, _ := strings.Cut(s, "/")
+				n, _ := strconv.Atoi(ar)
+				bs = append(bs, builtin{name, n})
+			}
+		}
+	}()
 	q, err := gojq.Parse("builtins[]")
 	if err != nil {
-		panic(err)
+		return nil
 	}
-	var bs []builtin
 	it := q.Run(nil)
 	for {
 		v, ok := it.Next()
@@ -276,7 +286,7 @@ func loadBuiltins() []builtin {
 		}
 		s, ok := v.(string)
 		if !ok {
-			panic(fmt.Sprint("builtins: ", v))
+			return nil
 		}
 		name, ar, _ := strings.Cut(s, "/")
 		n, _ := strconv.Atoi(ar)
